@@ -358,6 +358,10 @@ def lean_lines(op):
         return ["\t".join(["op", "update", enc_rule(op[1]), enc_rule(op[2])])]
     if n == "updatemany":
         return ["\t".join(["op", "updatemany", enc_rules(op[1]), enc_rules(op[2])])]
+    if n == "removeread":
+        return ["op\tremoveread\t" + op[1]]
+    if n == "updateread":
+        return ["op\tupdateread\t" + op[1]]
     if n == "clear":
         return ["op\tclear"]
     if n == "build":
@@ -450,6 +454,14 @@ def impl_call(e, op, is_async):
         return call("update_policy", list(op[1]), list(op[2]))
     if n == "updatemany":
         return call("update_policies", cp(op[1]), cp(op[2]))
+    if n == "removeread":
+        # the batch argument is the very object the read returned
+        if op[1] == "p":
+            return call("remove_policies", e.get_policy())
+        return call("remove_named_grouping_policies", op[1], e.get_named_grouping_policy(op[1]))
+    if n == "updateread":
+        got = e.get_policy()
+        return call("update_policies", got, [list(r[:-1]) + [r[-1] + op[1]] for r in got])
     if n == "clear":
         return call("clear_policy")
     if n == "build":
@@ -676,6 +688,7 @@ def compare_history(res, cfg, hist, impl, answers, idx, queries, judge):
         if diffs:
             res.disagree({"what": f"{cfg.shape}: {op[0]}: " + "; ".join(f"{d[0]}: impl {d[1]!r} vs model {d[2]!r}" for d in diffs[:3]), "case": case})
         # ---- model vs its own spec column (fresh answers) is judged by the property module
+        rec["pre"] = impl[i - 1]["pol"] if i else {k: [list(r) for r in cfg.initial.get(k, [])] for k in ("p", "g", "g2")}
         ok = judge(res, cfg, hist, i, op, rec, model, case, queries)
         if ok is False or diffs:
             return
@@ -732,6 +745,7 @@ def op_alphabet(shape, level="full"):
     # filters with leading / interior / trailing wildcards and a non-zero field index
     ops += [("removefiltered", "p", 0, ["", P[0][1]]), ("removefiltered", "p", 0, [P[0][0], "", P[0][-1]] if len(P[0]) == 3 else [P[0][0], "", P[0][2]]),
             ("removefiltered", "p", 1, [P[1][1], ""]), ("removefiltered", "g", 0, ["", G[0][1]]), ("removefiltered", "p", 0, ["", ""])]
+    ops += [("removeread", "g"), ("removeread", "p")]
     ops += [("delete_user", "alice"), ("delete_role", "admin"), ("delete_roles_for_user", "alice"), ("delete_role_for_user", "alice", "admin") if shape != "dom" else ("delete_roles_for_user_in_domain", "alice", "admin", "d1")]
     if shape != "dom":
         ops += [("add_role_for_user", "bob", "root")]
@@ -743,5 +757,5 @@ def op_alphabet(shape, level="full"):
         ops += [("addmany", "g2", [G2[0], G2[1]]), ("removefiltered", "g2", 1, ["grp"])]
     if level == "full":
         ops += [("update", P[0], P[2 if len(P) > 2 else 1]), ("update", P[0], P[0][:-1] + ["write"]), ("updatemany", [P[0]], [P[0][:-1] + ["write"]])]
-        ops += [("clear",), ("build",), ("load", None), ("save",)]
+        ops += [("clear",), ("build",), ("load", None), ("save",), ("updateread", "x")]
     return ops
